@@ -29,6 +29,7 @@ CONFIGS = [
     {'npts': [7, 5, 8, 7], 'start': 'v_parallel', 'iota': 0.8, 'mn': [2, 1]},
 ]
 TOL = 1e-13
+GEN = {'B0': 1.3, 'kTe': 0.31, 'deltaRTe': 1.6, 'CTe': 1.25, 'CTi': 1.1, 'deltaRN0': 3.1, 'deltaR': 7.0}      # ties between constants broken (see pgv.ops.GENERIC)
 
 
 def _grids(npts, maxranks):
@@ -114,7 +115,7 @@ def _pipeline(cfg, nprocs, stages='all'):
         viol = []
         iv = 0.8 if cfg['iota'] == 'profile' else cfg['iota']
         f, c, t = setupCylindricalGrid(layout=cfg['start'], npts=list(npts), comm=comm, allocateSaveMemory=True,
-                                       iotaVal=iv, eps=0.1, m=cfg['mn'][0], n=cfg['mn'][1])
+                                       iotaVal=iv, eps=0.1, m=cfg['mn'][0], n=cfg['mn'][1], vMin=-6.1, **GEN)
         if cfg['iota'] == 'profile':
             c.iota = lambda rr=None: 0.8 * (1 + 0.05 * np.asarray(rr, dtype=float))
         eta = f.eta_grid
@@ -304,7 +305,7 @@ def _driver(cfg, grid, folder):
     import fullSimulation
     d = env.scratch_dir('c05')
     try:
-        sim.write_constants(os.path.join(d, 'c.json'), npts=cfg['npts'], dt=2, iotaVal=cfg['iota'], eps=1e-2, m=2, n=1)
+        sim.write_constants(os.path.join(d, 'c.json'), npts=cfg['npts'], dt=2, iotaVal=cfg['iota'], eps=1e-2, m=2, n=1, vMin=-6.1, **GEN)
         tend = 2 * cfg['steps']
 
         def fn(r):
@@ -363,7 +364,7 @@ def run_case(case):
 
         def fn(r):
             comm = MPI.COMM_WORLD
-            g, c, t = setupCylindricalGrid(layout=cfg['start'], npts=list(npts), comm=comm, plotThread=True, drawRank=draw, eps=0.1, m=cfg['mn'][0], n=cfg['mn'][1])
+            g, c, t = setupCylindricalGrid(layout=cfg['start'], npts=list(npts), comm=comm, plotThread=True, drawRank=draw, eps=0.1, m=cfg['mn'][0], n=cfg['mn'][1], iotaVal=0.0, vMin=-6.1, **GEN)
             out = {}
             bad = []
             if r != draw:
